@@ -269,7 +269,20 @@ func (m *raiseMon) Observe(h *Hand, t *Trans) *vlib.Violation {
 	x := t.Op.X
 	cls := amtClass(t.Op, pre)
 	h.St.Class("request:" + t.Op.A + "(" + cls + ")")
-	if t.Op.A == "raise" && hasStr(bp.AllowedActions, "raise") && known {
+	offered := hasStr(bp.AllowedActions, "raise")
+	if t.Op.A == "raise" && known && !offered {
+		// A raise the engine did not offer. The statement speaks of requests: one to
+		// a level below the stack that lifts the wager by at least the minimum (and
+		// comes from a stack of at least the minimum bet, the condition C11 puts on
+		// offering a raise at all) has to be carried out all the same.
+		if pre.Meta.Limit == "no" && cw > 0 && !bp.Fold && bp.StackSize > 0 && x > cw && x < stack0(bp) && x-cw >= book && stack0(bp) >= miniBet(h.Cfg) {
+			if t.Err != nil {
+				return vlib.V("C12", "legal-raise-refused/"+cls+"/not-offered", "%s [%s] err=%v | minimum raise by the book %d | wager=%d stack0=%d cw=%d | offered %v", t.Op, cls, t.Err, book, bp.Wager, stack0(bp), cw, bp.AllowedActions)
+			}
+		}
+		h.St.Class("unoffered-raise-requests")
+	}
+	if t.Op.A == "raise" && offered && known {
 		d := func() string {
 			return fmt.Sprintf("%s [%s] err=%v | minimum raise by the book %d | before: wager=%d stack0=%d cw=%d prs=%d | after: wager=%d stack=%d cw=%d prs=%d raiser=%d event=%s", t.Op, cls, t.Err, book, bp.Wager, stack0(bp), cw, pre.Status.PreviousRaiseSize, ap.Wager, ap.StackSize, post.Status.CurrentWager, post.Status.PreviousRaiseSize, post.Status.CurrentRaiser, post.Status.CurrentEvent)
 		}
